@@ -37,7 +37,7 @@ func r05_1(r *Report, p *Program) {
 		}
 		r.Check(rule, FK(m)+"[copy-of-observed]", p.Pos(m.Pos()), ok, "merge runs on DeepCopyJSON(observed)", "Merge does not hand a deep copy of observed to merge: the observed (cached) object would be edited in place")
 		// result is that copy
-		for _, b := range m.Blocks {
+		for _, b := range engine.BlocksInl(m) {
 			for _, in := range b.Instrs {
 				if rt, isR := in.(*ssa.Return); isR && engine.ReturnsNilError(rt) && E(rt.Results[0]) != "call(k8s.io/apimachinery/pkg/runtime.DeepCopyJSON)(p0)" {
 					r.Check(rule, FK(m)+"[returns-the-copy]", p.InstrPos(in), false, "", "Merge returns "+E(rt.Results[0]))
@@ -83,7 +83,7 @@ func vacuousAssertGuards(r *Report, p *Program, rule string) {
 	n := 0
 	ord := map[string]int{}
 	for _, f := range p.Scanned {
-		for _, b := range f.Blocks {
+		for _, b := range engine.BlocksInl(f) {
 			if len(b.Instrs) == 0 {
 				continue
 			}
@@ -122,7 +122,7 @@ func vacuousAssertGuards(r *Report, p *Program, rule string) {
 	// the four clash guards of merge must exist as operand tests
 	if m := fn(r, p, rule, "dynamic/apply.merge"); m != nil {
 		good := 0
-		for _, b := range m.Blocks {
+		for _, b := range engine.BlocksInl(m) {
 			for i := range b.Succs {
 				l, ok := engine.EdgeLit(b, i)
 				if !ok || l.Pos {
@@ -137,7 +137,7 @@ func vacuousAssertGuards(r *Report, p *Program, rule string) {
 			}
 		}
 		// each guard tests the operand of ITS OWN assertion: `x, ok := V.(T); if !ok && W != nil` needs W == V
-		for _, b := range m.Blocks {
+		for _, b := range engine.BlocksInl(m) {
 			if len(b.Instrs) == 0 {
 				continue
 			}
@@ -198,7 +198,7 @@ func r05_3(r *Report, p *Program) {
 		if !strings.HasPrefix(FK(f), "metacontroller/pkg/dynamic/apply.") {
 			continue
 		}
-		for _, b := range f.Blocks {
+		for _, b := range engine.BlocksInl(f) {
 			for _, ins := range b.Instrs {
 				if ta, ok := ins.(*ssa.TypeAssert); ok && !ta.CommaOk {
 					unchecked[f] = true
@@ -296,7 +296,7 @@ func r05_4(r *Report, p *Program) {
 		}
 	}
 	// success return passes all
-	for _, b := range f.Blocks {
+	for _, b := range engine.BlocksInl(f) {
 		for _, in := range b.Instrs {
 			if rt, isR := in.(*ssa.Return); isR && engine.ReturnsNilError(rt) {
 				if bypass(f, rt, func(x ssa.Instruction) bool { return x == sl.Instr.(ssa.Instruction) }) != nil {
@@ -336,7 +336,7 @@ func r05_4(r *Report, p *Program) {
 			continue
 		}
 		if ini := p.Prog.Package(pk.Types).Func("init"); ini != nil {
-			for _, b := range ini.Blocks {
+			for _, b := range engine.BlocksInl(ini) {
 				for _, in := range b.Instrs {
 					if st, isS := in.(*ssa.Store); isS && E(st.Addr) == "global(controller/common.objectMetaSystemFields)" {
 						engine.BackSlice(st.Val, func(x ssa.Value) bool {
@@ -398,7 +398,7 @@ func r05_4b(r *Report, p *Program, rule string) {
 				ok, why = false, "RemoveNestedField reachable although the observed object has the field"
 			default:
 				// every success return has passed one of them
-				for _, b := range rf.Blocks {
+				for _, b := range engine.BlocksInl(rf) {
 					for _, in := range b.Instrs {
 						if rt, isR := in.(*ssa.Return); isR && engine.ReturnsNilError(rt) {
 							if bypass(rf, rt, func(x ssa.Instruction) bool {
@@ -427,7 +427,7 @@ func r05_4b(r *Report, p *Program, rule string) {
 			}
 		}
 		// only the bookkeeping key is deleted, nothing is stored
-		for _, b := range nf.Blocks {
+		for _, b := range engine.BlocksInl(nf) {
 			for _, in := range b.Instrs {
 				switch x := in.(type) {
 				case *ssa.MapUpdate:
